@@ -196,6 +196,46 @@ def run(ctx, report):
     R8 = report.rule('C18.D8', 'every class: the rendered text is accepted by exactly its own class and assembles back to the same fields', floor=70)
     generic_trip_rule(ctx, R8, M, mod)
 
+    R9 = report.rule('C18.D9', 'a register-name table that is read back with .index() holds no name twice (rendering number -> name and parsing name -> number are inverse)', floor=3)
+    name_table_rule(ctx, R9, mod)
+
+
+def name_table_rule(ctx, R, mod):
+    """spr2str(n) is spr_str[n], str2spr(s) is spr_str.index(s): the pair is a bijection only when no name occurs twice.  The tables are evaluated from
+    the module-level statements that build them (comprehensions, item assignments, loops); every table some function reads with .index() is checked."""
+    from ..ppcbranch import module_env
+    env, _sk = module_env(mod, {})
+    indexed = {}
+    for fname, fn in mod.funcs.items():
+        for n in ast.walk(fn):
+            if isinstance(n, ast.Call) and isinstance(n.func, ast.Attribute) and n.func.attr == 'index' and isinstance(n.func.value, ast.Name):
+                indexed.setdefault(n.func.value.id, fname)
+    for cname in mod.classes:
+        for mname, fn in mod.methods(cname).items():
+            for n in ast.walk(fn):
+                if isinstance(n, ast.Call) and isinstance(n.func, ast.Attribute) and n.func.attr == 'index' and isinstance(n.func.value, ast.Name):
+                    indexed.setdefault(n.func.value.id, '%s.%s' % (cname, mname))
+    n_t = 0
+    for tname, user in sorted(indexed.items()):
+        tab = env.get(tname)
+        if not (isinstance(tab, list) and tab and all(isinstance(x, str) for x in tab)):
+            continue
+        n_t += 1
+        seen, dups = {}, []
+        for i, nm in enumerate(tab):
+            if nm in seen:
+                dups.append((nm, seen[nm], i))
+            seen.setdefault(nm, i)
+        inst = 'name table %s (read back by %s)' % (tname, user)
+        if dups:
+            nm, a, b = dups[0]
+            R.violation(inst, 'name-table:%s:%s' % (tname, nm), '%s holds the name %s at %d and at %d: number %d renders as %s and %s.index reads it back as %d, another word'
+                        % (tname, nm, a, b, b, nm, tname, a), where(mod, mod.assigns[tname][-1]), witness='mfspr with SPR field %d renders as %s and assembles to SPR %d' % (b, nm, a))
+        else:
+            R.ok(inst, sample='%s: %d distinct names' % (tname, len(tab)))
+    if n_t == 0:
+        raise AnalysisError('no evaluable name table is read back with .index()')
+
 
 def generic_trip_rule(ctx, R, M, mod):
     from ..ppctrip import Trip
@@ -593,4 +633,5 @@ MUTANTS = [
     ('offs-pair', 'miasmx/arch/ppc_arch.py', "        v = (self.offs>>2)&0xffffff\n", "        v = (self.offs>>1)&0xffffff\n", 'C18.D3'),
     ('srawi-name', 'miasmx/arch/ppc_arch.py', "{\"fbits\":[824], 'l':10}", "{\"fbits\":[792], 'l':10}", 'C18.D'),
     ('stw-name', 'miasmx/arch/ppc_arch.py', "    namestr = ['STW']", "    namestr = ['STH']", 'C18.D5'),
+    ('spr-name-twice', 'miasmx/arch/ppc_arch.py', "spr_str[864] = 'SR1'", "spr_str[864] = 'SR0'", 'C18.D9'),
 ]
